@@ -3,13 +3,59 @@ use coupe::Partition as _;
 use std::time::Duration;
 use verif_harness::*;
 
-fn gen_case(r: &mut Rng, tier: &str) -> (String, Vec<i64>, f64, usize) {
+/// The k-th vector of the exhaustive enumeration of all vectors over {0..4}
+/// of length 1..=6 (5 + 25 + ... + 15625 = 19530 vectors).
+fn small_vector(mut k: u64) -> Vec<i64> {
+    let mut len = 1;
+    let mut block = 5u64;
+    while k >= block {
+        k -= block;
+        len += 1;
+        block *= 5;
+    }
+    (0..len).map(|_| { let d = (k % 5) as i64; k /= 5; d }).collect()
+}
+const SMALL_TOTAL: u64 = 5 + 25 + 125 + 625 + 3125 + 15625;
+
+fn gen_case(r: &mut Rng, tier: &str, idx: usize) -> (String, Vec<i64>, f64, usize) {
     let big = tier == "thorough";
-    let fam = r.below(9);
+    // thorough tier: the first SMALL_TOTAL cases enumerate every vector over {0..4} up to length 6 at tolerance 0
+    if big && (idx as u64) < SMALL_TOTAL {
+        let ws = small_vector(idx as u64);
+        let n = ws.len();
+        return ("exhaustive_small".to_string(), ws, 0.0, n);
+    }
+    let fam = r.below(14);
+    let mut forced_tol: Option<f64> = None;
     let (name, ws): (&str, Vec<i64>) = match fam {
-        0 => {
-            let n = r.range(1, 7) as usize;
-            ("small_alphabet", (0..n).map(|_| r.range(0, 4)).collect())
+        0 | 9 | 10 | 11 => {
+            // a random element of the exhaustive small-alphabet space
+            ("small_alphabet", small_vector(r.below(SMALL_TOTAL)))
+        }
+        12 | 13 => {
+            // the two largest weights together balance the rest exactly (up to the tolerance)
+            let k = r.range(1, 5) as usize;
+            let rest: Vec<i64> = (0..k).map(|_| r.range(1, 9)).collect();
+            let s: i64 = rest.iter().sum();
+            let m = *rest.iter().max().unwrap();
+            let slack = if r.chance(1, 2) { 0 } else { r.range(0, 2) };
+            let target = s + slack; // a + b
+            let a = (target + 1) / 2;
+            let b = target - a;
+            let mut ws = rest;
+            if b >= m {
+                ws.push(a);
+                ws.push(b);
+            } else {
+                ws.push(target.max(m));
+            }
+            for i in (1..ws.len()).rev() {
+                let j = r.below(i as u64 + 1) as usize;
+                ws.swap(i, j);
+            }
+            let total: i64 = ws.iter().sum();
+            forced_tol = Some(if slack == 0 || total == 0 { 0.0 } else { slack as f64 / total as f64 });
+            ("pair_vs_rest", ws)
         }
         1 => {
             let n = r.range(2, if big { 13 } else { 11 }) as usize;
@@ -41,7 +87,6 @@ fn gen_case(r: &mut Rng, tier: &str) -> (String, Vec<i64>, f64, usize) {
             }
             let mut ws = a;
             ws.extend(b);
-            // shuffle
             for i in (1..ws.len()).rev() {
                 let j = r.below(i as u64 + 1) as usize;
                 ws.swap(i, j);
@@ -66,22 +111,27 @@ fn gen_case(r: &mut Rng, tier: &str) -> (String, Vec<i64>, f64, usize) {
             ("large_values", (0..n).map(|_| r.range(0, 1 << 40)).collect())
         }
     };
-    let tol = if name == "long_loose" {
+    let total: i64 = ws.iter().sum();
+    let tol = if let Some(t) = forced_tol {
+        t
+    } else if name == "long_loose" {
         *r.pick(&[0.05, 0.1, 0.3])
     } else {
-        match r.below(8) {
-            0 | 1 => 0.0,
-            2 => 0.01,
-            3 => 0.05,
-            4 => 0.1,
-            5 => 0.5,
-            6 => 1.0,
+        match r.below(10) {
+            0 | 1 | 2 => 0.0,
+            3 => 0.01,
+            4 => 0.05,
+            5 => 0.1,
+            6 => 0.5,
+            7 => 1.0,
+            // an exact small difference: d / total
+            8 => if total > 0 { r.range(0, 3) as f64 / total as f64 } else { 0.0 },
             _ => (r.below(1000) as f64) / 1000.0,
         }
     };
     // malformed stream: partition length differs (shorter, longer, empty)
     let mut plen = ws.len();
-    if r.chance(1, 12) {
+    if r.chance(1, 14) {
         plen = match r.below(3) {
             0 => 0,
             1 => ws.len() + 1 + r.below(3) as usize,
@@ -106,7 +156,7 @@ fn main() {
     let mut panics = 0usize;
     for idx in 0..a.cases {
         let mut r = rng.fork();
-        let (fam, ws, tol, plen) = gen_case(&mut r, &a.tier);
+        let (fam, ws, tol, plen) = gen_case(&mut r, &a.tier, idx);
         if let Some(o) = a.only {
             if o != idx {
                 continue;
